@@ -75,6 +75,11 @@ CHECKS = {
         technique='explicit-state BFS over all operation histories up to a depth bound on the real registries (57 operations on a 6-class lattice with multiple inheritance), states merged by a canonical (implementation, reference-model) abstraction, every transition compared with the reference model, merges validated differentially',
         text='Breadth-first search over every history of register-by-class / by-name / by-predicate, print and is_registered (all legal flag combinations) up to the depth bound; each transition restores a snapshot of the real registries, replays the history on the real package and compares the observed printer tag or boolean with an MRO-walk reference model. Canonical state hashing (tags renamed in order of appearance) makes depth 5-6 tractable, and every state reached by a second history has its complete outgoing observation vector recomputed and compared, so a wrong merge is reported rather than hidden. Dispatch after arbitrary interleavings is a statement about all histories, which four fixed test orders cannot settle.',
         note='trusted: the reference model in mc/checks/c15.py (about 50 lines); is_registered(check_deferred=False) is constrained only where the statement/pinned tests constrain it; bound: depth 5 (quick) / 6 (thorough) on one lattice'),
+    'C17': dict(
+        category='exploration', design_ref='DESIGN.md 4/C17',
+        technique='exhaustive enumeration of args/kwargs lists x callables x both call APIs, and of generated dataclass / attrs class definitions (fields x defaults x repr flags x frozen/slots variants x field names) x all default/other instances; AST-level oracle plus evaluation',
+        text='A user type is printed through pretty_call and pretty_call_alt with every argument list of the bounded grammar and five kinds of callables; on the AST the callee must be the qualified name, positional and keyword arguments must appear in the given order and every argument subtree must equal the AST of that argument printed on its own. About 2 000 generated dataclass and attrs definitions are instantiated in every default/non-default combination; the keywords shown must be exactly the fields with repr enabled whose value differs from the default (or that have none), in declaration order, and evaluation must reconstruct an equal instance. One class per library and three instances are all the suite has.',
+        note='trusted: CPython ast/eval; class definitions rejected by the library itself are skipped and counted; bound: <= 3 fields, <= 3 positional and <= 3 keyword arguments'),
     'C18': dict(
         category='model_checking', design_ref='DESIGN.md 4/C18',
         technique='explicit-state search of the default-configuration state space (32 states x 243 set_default_config operations, all transitions executed on the real module) with a complete observation vector per state (3 probes x 3^6 explicit/default combinations x every entry point) against a dictionary-merge reference model',
